@@ -235,6 +235,21 @@ def r2_holdout(ctx, fq, plate_balanced):
         ctx.need(p[0] == "sel" and p[1] == S, f"{s.site}: treatment_names is not a row selection of `{S}`")
         sel.append(resolve_selector(ast.parse(p[3], mode="eval").body, env))
     pair_ok = sel[0][0] == sel[1][0] and {sel[0][1], sel[1][1]} == {True, False} and sel[0][0].isidentifier()
+    if not pair_ok:
+        # this rule reads the boolean-vector representation (a vector and its complement).  Two selectors that are not boolean vectors - index
+        # arrays, one the set difference of all positions and the other - are another representation of a partition: not judged here
+        def is_index_array(t):
+            d = env.get(t) if t.isidentifier() else None
+            for _ in range(4):
+                if isinstance(d, ast.Call) and call_name(d) in ("np.sort", "np.asarray", "np.array", "np.unique") and d.args:
+                    d = d.args[0]
+                    if isinstance(d, ast.Name):
+                        d = env.get(d.id)
+                else:
+                    break
+            return isinstance(d, ast.Call) and call_name(d) in ("np.setdiff1d", "np.concatenate", "np.flatnonzero", "np.where", "np.nonzero", "np.hstack", "np.empty", "np.sort", "np.delete")
+        if any(is_index_array(b) for b, _ in sel):
+            raise AnalysisError(f"{f.site()}: the two halves are selected by index arrays ({[b for b, _ in sel]}), not by a boolean vector and its complement; this rule does not read that representation")
     ctx.check("R2", f"{f.site()}::partition", pair_ok, f"halves use `{sel[0][0]}` and its complement",
               f"the two halves are not selected by a vector and its complement: {[('~' if n else '') + b for b, n in sel]}")
     if not pair_ok:
